@@ -2,7 +2,10 @@ package vc
 
 import (
 	"fmt"
+	"go/ast"
+	"os"
 	"sort"
+	"strconv"
 	"strings"
 )
 
@@ -56,6 +59,7 @@ type flagAnalysis struct {
 	report  bool
 	changed bool
 	emit    func(n *pegNode, path string, facts flagFacts)
+	onRef   func(n *pegNode, path string, facts flagFacts)
 }
 
 // opcode -> fact required where it is emitted
@@ -194,6 +198,9 @@ func (fa *flagAnalysis) walk(n *pegNode, path string, in flagFacts) flagFacts {
 		return fa.code(n, path, in)
 	case pkRef:
 		r := pa.g.Rules[n.Ref]
+		if fa.report && fa.onRef != nil {
+			fa.onRef(n, path, in)
+		}
 		if cur, ok := fa.entry[r]; !ok {
 			fa.entry[r] = in.clone()
 			fa.changed = true
@@ -219,7 +226,9 @@ func (fa *flagAnalysis) code(n *pegNode, path string, in flagFacts) flagFacts {
 	out := in.clone()
 	w := map[string]bool{}
 	for _, f := range af.FlagWrites {
-		w[f] = true
+		if f != "*" {
+			w[f] = true
+		}
 	}
 	for _, c := range af.Calls {
 		if c == "FlagsPop" {
@@ -227,6 +236,14 @@ func (fa *flagAnalysis) code(n *pegNode, path string, in flagFacts) flagFacts {
 		}
 	}
 	fa.applyWrites(out, w)
+	if os.Getenv("DSVC_PEG_DEBUG") != "" && n.Rule.Name == "est" {
+		fmt.Fprintf(os.Stderr, "FLAGCODE %s %s sets=%v writes=%v calls=%v in=%s\n", path, n.Fn, af.FlagSets, af.FlagWrites, af.Calls, in.key())
+	}
+	if !w["*"] {
+		for f, v := range af.FlagSets {
+			out[fmt.Sprintf("%s=%v", f, v)] = true
+		}
+	}
 	return out
 }
 
@@ -291,9 +308,43 @@ func (e *Engine) addPEGFlagObligations(pa *pegAnalysis) {
 			e.frameObl(name, []string{"C16"}, ok, "", "emission of "+nd.what+" is dominated by the configuration predicate "+nd.fact, detail)
 		}
 	}
+	// scoped switches (C18): `var pegScopedFlags = []string{"<rule>><target>: F=v ..."}` in the contracts file: inside <rule>,
+	// every (non-look-ahead) reference to <target> is entered with the listed facts, unless the alternative it belongs to
+	// begins with the look-ahead of the literal "(" (a parenthesised value delimits itself).
+	scoped := e.pegScopedFlags()
+	scopedSeen := map[string]int{}
+	fa.onRef = func(n *pegNode, path string, facts flagFacts) {
+		for _, sc := range scoped {
+			if n.Rule.Name != sc.rule || pa.g.Rules[n.Ref].Name != sc.target {
+				continue
+			}
+			if pa.underParenGuard(n) {
+				continue
+			}
+			scopedSeen[sc.rule+">"+sc.target]++
+			for _, f := range sc.facts {
+				name := fmt.Sprintf("peg:%s/scoped-flag:%s@%s", path, f, sc.target)
+				if seen[name] {
+					continue
+				}
+				seen[name] = true
+				ok := facts[f]
+				detail := ""
+				if !ok {
+					detail = fmt.Sprintf("rule %s enters %s at %s without the configuration fact %s (facts known here: {%s})", sc.rule, sc.target, path, f, facts.key())
+				}
+				e.frameObl(name, []string{"C18", "C16"}, ok, "", "inside "+sc.rule+", "+sc.target+" is parsed with "+f, detail)
+			}
+		}
+	}
 	for _, r := range pa.g.Rules {
 		if in, ok := fa.entry[r]; ok {
 			fa.walk(r.Expr, r.Name, in.clone())
+		}
+	}
+	for _, sc := range scoped {
+		if scopedSeen[sc.rule+">"+sc.target] == 0 {
+			e.frameObl("peg:"+sc.rule+"/scoped-flag:found@"+sc.target, []string{"C18", "C16"}, false, "", "rule "+sc.rule+" references "+sc.target+" outside a parenthesis guard", "no such reference found (grammar changed?)")
 		}
 	}
 	// C18: st.* instructions are emitted only by rules that are reachable solely through the "^st" alternative
@@ -350,4 +401,66 @@ func (e *Engine) addStConfinement(pa *pegAnalysis, stRules []string) {
 	if len(stRules) == 0 {
 		e.frameObl("peg:st-rules-found", []string{"C18"}, false, "", "the grammar has rules that emit st.* instructions", "no action emitting typeStSetName/typeStModify/typeStX0/typeStX1 (directly or through AddStName/AddStModify) was found")
 	}
+}
+
+type scopedFlag struct {
+	rule, target string
+	facts        []string
+}
+
+func (e *Engine) pegScopedFlags() []scopedFlag {
+	var out []scopedFlag
+	for v, lit := range e.globalsInit {
+		if v.Name() != "pegScopedFlags" {
+			continue
+		}
+		for _, el := range lit.Elts {
+			bl, ok := el.(*ast.BasicLit)
+			if !ok {
+				continue
+			}
+			s, err := strconv.Unquote(bl.Value)
+			if err != nil {
+				continue
+			}
+			k := strings.Index(s, ":")
+			if k < 0 {
+				continue
+			}
+			rt := strings.SplitN(strings.TrimSpace(s[:k]), ">", 2)
+			if len(rt) != 2 {
+				continue
+			}
+			out = append(out, scopedFlag{rule: rt[0], target: rt[1], facts: strings.Fields(s[k+1:])})
+		}
+	}
+	sort.Slice(out, func(i, j int) bool { return out[i].rule+out[i].target < out[j].rule+out[j].target })
+	return out
+}
+
+// underParenGuard: the nearest enclosing sequence of n (within its rule) begins with the look-ahead &"(".
+func (pa *pegAnalysis) underParenGuard(n *pegNode) bool {
+	var find func(cur *pegNode, guarded bool) (bool, bool)
+	find = func(cur *pegNode, guarded bool) (bool, bool) {
+		if cur == n {
+			return true, guarded
+		}
+		g := guarded
+		if cur.Kind == pkSeq && len(cur.Kids) > 0 {
+			if k := cur.Kids[0]; k.Kind == pkAnd && len(k.Kids) == 1 && k.Kids[0].Kind == pkLit && k.Kids[0].Text == "(" {
+				g = true
+			}
+		}
+		if cur.Kind == pkAnd || cur.Kind == pkNot {
+			return false, false
+		}
+		for _, k := range cur.Kids {
+			if f, gg := find(k, g); f {
+				return true, gg
+			}
+		}
+		return false, false
+	}
+	_, g := find(n.Rule.Expr, false)
+	return g
 }
